@@ -59,6 +59,26 @@ def rows_of(cls):
 
 
 KNOWN_ROWS = {"c03_gx_row_without_container": ("CreditControlRequest", "access_network_charging_identifier_gx")}
+# known finding c03_containers_without_additional_avps: exactly these grouped containers have no holder for undeclared AVPs (frozen list)
+KNOWN_NOHOLDER = frozenset("""
+    AccessNetworkInfoChange AccessTransferInformation AccumulatedCost AdditionalContentInformation AddressDomain AfCorrelationInformation
+    AllocationRetentionPriority AnnouncementInformation AocCostInformation AocInformation AocService AocSubscriptionInformation ApnRateControl
+    ApnRateControlDownlink ApnRateControlUplink ApplicationServerInformation BasicServiceCode CalledIdentityChange Cause CcMoney
+    ChargingRuleInstall ChargingRuleRemove CostInformation CoverageInfo CpdtInformation CurrentTariff DcdInformation DefaultEpsBearerQos
+    DestinationInterface EarlyMediaDescription EnhancedDiagnostics Envelope EventType ExperimentalResult FilterRule GrantedServiceUnit
+    GsuPoolReference ImInformation ImsInformation IncrementalCost InterOperatorIdentifier IsupCause LcsClientId LcsClientName LcsInformation
+    LcsRequestorId LocationInfo LocationType MbmsInformation MediaComponentDescription MediaSubComponent MessageBody MessageClass MmContentType
+    MmsInformation MmtelInformation NextTariff NiddSubmission NniInformation OriginatorAddress OriginatorInterface OriginatorReceivedAddress
+    ParticipantGroup Pc5FlowBitrates PocInformation PocUserRole ProSeDirectCommunicationReceptionDataContainer
+    ProSeDirectCommunicationTransmissionDataContainer ProseInformation ProxyInfo PsFurnishChargingInformation PsInformation QosInformation
+    RadioParameterSetInfo RanSecondaryRatUsageReport RateElement RealTimeTariffInformation RecipientAddress RecipientInfo
+    RecipientReceivedAddress RedirectServer RelatedChangeConditionInformation RelatedTrigger RemainingBalance ScaleFactor ScsAsAddress
+    SdpMediaComponent SdpTimestamps ServiceDataContainer ServiceGenericInformation ServiceParameterInfo ServiceSpecificInfo
+    SmDeviceTriggerInformation SmsInformation SubscriptionId SupplementaryService TalkBurstExchange TariffInformation TimeQuotaMechanism
+    TimeStamps TrafficDataVolumes TransmitterInfo Trigger TrunkGroupId Tunneling TwanUserLocationInfo UnitCost UnitValue UsedServiceUnit
+    UserCsgInformation UserEquipmentInfo UserEquipmentInfoExtension UwanUserLocationInfo VariablePart VcsInformation VendorSpecificApplicationId
+    VolteInformation WlanOperatorId
+""".split())
 
 
 def table_errors(cls, carve=()):
@@ -90,6 +110,9 @@ def table_errors(cls, carve=()):
     except Exception as ex:
         errs.append("cannot be instantiated without arguments: %r" % (ex,))
         return errs
+    if not (hasattr(fresh, "additional_avps") or hasattr(fresh, "_additional_avps")) and not (
+            "c03_containers_without_additional_avps" in carve and cls.__name__ in KNOWN_NOHOLDER and cls in CONT):
+        errs.append("no additional_avps holder: AVPs the class does not declare are dropped on decode instead of carried over")
     for attr, t in ann.items():
         if attr.startswith("_") or attr in ("avp_def", "code", "name", "header", "additional_avps"):
             continue
@@ -100,6 +123,8 @@ def table_errors(cls, carve=()):
         cur = getattr(fresh, attr, None)
         if ts.startswith("list[") and not isinstance(cur, list):
             errs.append("attribute %s is declared %s but is not a list on a fresh instance (repeated AVPs overwrite each other on decode)" % (attr, ts))
+        if isinstance(cur, list) and not ts.lower().startswith("list["):
+            errs.append("attribute %s is declared %s but is a list on a fresh instance (a scalar that is set decodes as a one-element list)" % (attr, ts))
         if isinstance(cur, type):
             errs.append("attribute %s defaults to the class %s itself" % (attr, cur.__name__))
     return errs
@@ -115,6 +140,19 @@ def repro_gx_row():
     """known finding: CreditControlRequest.access_network_charging_identifier_gx denotes a Grouped AVP but has no container class"""
     errs = [e for e in table_errors(CLASSES["m:credit_control.CreditControlRequest"]) if "access_network_charging_identifier_gx" in e]
     return bool(errs), "; ".join(errs)
+
+
+def repro_noholder():
+    """known finding: a container without additional_avps drops an undeclared sub-AVP on decode"""
+    bad = []
+    extra = ref_avp(0x00c0ffee, 99999, 0, b"keep")
+    for name in sorted(KNOWN_NOHOLDER):
+        cls = CLASSES.get("g:" + name)
+        if cls is None:
+            continue
+        if _encode(_decode(cls, extra, False), False) != extra:
+            bad.append(name)
+    return bool(bad), "%d containers drop an undeclared sub-AVP (e.g. %s)" % (len(bad), ", ".join(bad[:3]))
 
 
 def lemmas(tier, src):
@@ -353,6 +391,38 @@ def row_rt(iv: int, bv: bytes, sv: str) -> bool:
     return hx.check(inputs, obs, exp, "attribute %s.%s -> AVP (%d, %d) -> attribute" % (P["cls"], d.attr_name, d.avp_code, d.vendor_id))
 
 
+def carry_over(code: int, flags: int, bv: bytes) -> bool:
+    """
+    pre: code == P["code"] and 0 <= flags <= 3 and len(bv) == 4
+    post: _
+    """
+    hx.begin()
+    cls = CLASSES[P["cls"]]
+    is_msg = P["cls"].startswith("m:")
+    inputs = (code, flags, bv)
+    code = P["code"]            # concrete: the attribute lookup formats "<code>-<vendor>" keys
+    try:
+        # an AVP the class cannot declare (vendor 99999 appears in no table), M/P bits symbolic
+        extra = ref_avp(code, 99999, flags * 0x20, bv)
+        obj = cls()
+        md, me = _first_scalar(cls)
+        if md is not None:
+            mv, mpl, mdec = concrete_value(kind_of(me["type"]), 1)
+            setattr(obj, md.attr_name, [mv] if isinstance(getattr(obj, md.attr_name, None), list) else mv)
+        own = _encode(obj, is_msg)
+        if is_msg:
+            ln = len(own) + len(extra)
+            wire = own[:1] + bytes([ln // 65536, (ln // 256) % 256, ln % 256]) + own[4:] + extra
+        else:
+            wire = own + extra
+        back = _decode(cls, wire, is_msg)
+        again = _encode(back, is_msg)
+        obs = (type(back) is cls, again == wire)
+    except Exception as e:
+        return hx.fail(inputs, "raised %s: %s" % (type(e).__name__, str(e)[:80]))
+    return hx.check(inputs, obs, (True, True), "an AVP that %s does not declare is carried over unchanged by decode + encode" % P["cls"])
+
+
 # ----------------------------------------------------------------------------- (c) all attributes at once, one omitted
 def _set_all(obj, omit, depth=0):
     """type-directed concrete values for every row except row index `omit`; returns the expected (code, vendor) multiset"""
@@ -475,5 +545,11 @@ def specs(tier, seed, carve):
         nr = len(rows_of(CLASSES[n_]))
         out.append(dict(id="class_all/" + n_, fn="class_all", params={"cls": n_, "nrows": nr}, timeout=240 if q else 2400,
                         bound="%s: all %d attributes set to type-directed values at once, and with each single attribute left untouched" % (n_, nr)))
+    cn = [n_ for n_ in sorted(CLASSES) if not ("c03_containers_without_additional_avps" in carve and n_[2:] in KNOWN_NOHOLDER and n_.startswith("g:"))]
+    if q:
+        cn = rnd.sample(cn, 24)
+    for n_ in cn:
+        out.append(dict(id="carry_over/" + n_, fn="carry_over", params={"cls": n_, "code": rnd.randrange(1, 1 << 32)}, timeout=60,
+                        bound="%s: one undeclared AVP (a seeded 32-bit code, vendor 99999, M/P bits symbolic, 4 symbolic payload bytes) after the class's own AVPs" % n_))
     out.append(dict(id="undefined_naming", fn="undefined_naming", params={}, timeout=120, bound="undefined command with a repeated AVP (two symbolic Unsigned32), a grouped AVP and a symbolic OctetString"))
     return out
